@@ -1,6 +1,6 @@
 (* Property C12 — successful output always has the documented shape and is JSON-serialisable. *)
 From Coq Require Import String Ascii List ZArith NArith Bool.
-From SDP Require Import Base PyStr Json Actions Output OutputProofs FieldsFacts.
+From SDP Require Import Base PyStr Lexer Json Actions Parse Engine Seq Entity Output OutputProofs FieldsFacts Table TableProofs TableOutProofs TableModesProofs.
 From SDP.Gen Require Fields Tokens.
 Import ListNotations.
 Open Scope string_scope.
@@ -19,3 +19,20 @@ Print Assumptions C12_table_keys_always_present.
 Theorem C12_every_value_serialisable : forall v : pyval, exists s, json_dumps v = s.
 Proof. intro v. eexists. reflexivity. Qed.
 Print Assumptions C12_every_value_serialisable.
+
+(* ---------- the documented shape, proved for the core CREATE TABLE fragment in every mode ----------------------------------------
+   (with C10_common_view_table_fragment: one table entity per statement in every mode, its common keys as in mode sql)
+   every column entry of the reported table has exactly the eight documented keys, in the documented order, with boolean
+   unique / nullable flags *)
+Theorem C12_column_entries_documented : forall norm t x, In x (cds norm t) ->
+  exists u nl, final_col (pk_of (cds norm t)) x =
+    PDict [("name", PStr (cd_name x)); ("type", PStr (cd_ty x)); ("size", cd_sz x); ("references", cs_refs (cd_cs x));
+           ("unique", PBool u); ("nullable", PBool nl); ("default", cs_default (cd_cs x)); ("check", PNone)].
+Proof. exact column_entry_documented. Qed.
+Print Assumptions C12_column_entries_documented.
+Theorem C12_table_shape_sql : forall sch n (l : list cd), sch_ok sch -> n <> "" ->
+  Output.format "sql" false [PDict (tdict sch (PStr n) (map cd_dict l))]
+  = Ok (PList [PDict [("table_name", PStr n); ("schema", sch); ("primary_key", PList (pk_of l)); ("columns", PList (map (final_col (pk_of l)) l));
+                      ("alter", PDict []); ("checks", PList []); ("index", PList []); ("partitioned_by", PList []); ("tablespace", PNone)]]).
+Proof. exact format_table_sql. Qed.
+Print Assumptions C12_table_shape_sql.
